@@ -22,11 +22,13 @@ import (
 	"github.com/cometbft/cometbft/abci/types"
 	cmtproto "github.com/cometbft/cometbft/proto/tendermint/types"
 
+	"github.com/oasisprotocol/oasis-core/go/common"
 	"github.com/oasisprotocol/oasis-core/go/common/cbor"
 	"github.com/oasisprotocol/oasis-core/go/common/crypto/signature"
 	"github.com/oasisprotocol/oasis-core/go/common/node"
 	"github.com/oasisprotocol/oasis-core/go/consensus/api/transaction"
 	governance "github.com/oasisprotocol/oasis-core/go/governance/api"
+	roothash "github.com/oasisprotocol/oasis-core/go/roothash/api"
 	staking "github.com/oasisprotocol/oasis-core/go/staking/api"
 
 	"verifharness/internal/coqout"
@@ -46,6 +48,10 @@ type c01Case struct {
 	Tie bool `json:"tie,omitempty"`
 	// Procs: every replica additionally has a twin in its own OS process (see c01proc.go).
 	Procs bool `json:"procs,omitempty"`
+	// Runtimes: two compute runtimes with a shared compute node are registered and, once they
+	// have committees, executor commitments for BOTH are put into the same block, so that
+	// RuntimesToFinalize (roothash/api/block.go) has two entries to order.
+	Runtimes bool `json:"runtimes,omitempty"`
 	// informational
 	Height  int64    `json:"height,omitempty"`
 	Replica string   `json:"replica,omitempty"`
@@ -71,6 +77,9 @@ type c01Run struct {
 	bg     bool
 	tie    bool
 	procs  bool
+	rts    bool
+	rtStage int
+	cnode  *muxdrv.Validator
 	twins  []*twin
 	sum    *coqout.Summary
 	w      *coqout.Writer
@@ -146,7 +155,7 @@ type violation struct {
 }
 
 func (c *c01Run) theCase() c01Case {
-	return c01Case{Seed: c.seed, Blocks: c.blocks, NoBackground: !c.bg, Tie: c.tie, Procs: c.procs}
+	return c01Case{Seed: c.seed, Blocks: c.blocks, NoBackground: !c.bg, Tie: c.tie, Procs: c.procs, Runtimes: c.rts}
 }
 
 func c01GenesisOpts(seed uint64, tie bool) muxdrv.GenesisOpts {
@@ -161,7 +170,11 @@ func c01GenesisOpts(seed uint64, tie bool) muxdrv.GenesisOpts {
 func (c *c01Run) run() *violation {
 	c.rng = prng.New(c.seed ^ 0xc01c01)
 	var err error
-	c.g, err = muxdrv.NewGenesis(c.seed, c01GenesisOpts(c.seed, c.tie))
+	gopts := c01GenesisOpts(c.seed, c.tie)
+	if c.rts {
+		gopts.EpochInterval = 3
+	}
+	c.g, err = muxdrv.NewGenesis(c.seed, gopts)
 	if err != nil {
 		return &violation{What: "genesis generation failed: " + err.Error(), Case: c.theCase()}
 	}
@@ -178,7 +191,7 @@ func (c *c01Run) run() *violation {
 	defer c.close()
 	if c.procs {
 		for i, cfg := range cfgs {
-			t, err := startTwin(c.seed, c.tie, i, c.bg, cfg.Name)
+			t, err := startTwin(c.seed, c.tie, c.rts, i, c.bg, cfg.Name)
 			if err != nil {
 				for _, t2 := range c.twins {
 					t2.close()
@@ -198,6 +211,7 @@ func (c *c01Run) run() *violation {
 	}
 	c.chain = muxdrv.NewChain(c.g)
 	c.newVal = muxdrv.NewValidator(c.seed, 0)
+	c.cnode = muxdrv.ComputeNode(c.seed, 0, c.g.Validators[0])
 
 	// dispatch-order correspondence (one case per replica)
 	for i, r := range c.reps {
@@ -591,6 +605,68 @@ func (c *c01Run) newValidatorStep(ref *muxdrv.Replica) *txGen {
 	return nil
 }
 
+// runtimeStep drives the runtime scenario of a "runtimes" history by one step and removes the
+// senders it uses from the pool of random senders of this block.
+func (c *c01Run) runtimeStep(ref *muxdrv.Replica, ss *[]sender) []txGen {
+	g := c.g
+	v0 := g.Validators[0]
+	drop := func(kind string, idx int) {
+		out := (*ss)[:0]
+		for _, x := range *ss {
+			if !(x.kind == kind && x.idx == idx) {
+				out = append(out, x)
+			}
+		}
+		*ss = out
+	}
+	nonce := func(k *muxdrv.Key) uint64 {
+		if acc, err := ref.Account(0, k.Address()); err == nil {
+			return acc.General.Nonce
+		}
+		return 0
+	}
+	rt1, rt2 := muxdrv.RuntimeID(c.seed, "rt1"), muxdrv.RuntimeID(c.seed, "rt2")
+	big := muxdrv.Fee(10, 4*muxdrv.DefaultGas)
+	var out []txGen
+	switch c.rtStage {
+	case 0:
+		drop("acct", 8)
+		drop("entity", 0)
+		n8, ne := nonce(g.Accounts[8].Key), nonce(v0.Entity)
+		out = append(out,
+			txGen{muxdrv.Sign(g.Accounts[8].Key, muxdrv.TxTransfer(n8, big, c.cnode.Node.Address(), 5000)), "rt-fund-node", "valid"},
+			txGen{muxdrv.Sign(v0.Entity, muxdrv.TxRegisterRuntime(ne, big, muxdrv.RuntimeDescriptor(rt1, v0.Entity.Public()))), "rt-register", "valid"},
+			txGen{muxdrv.Sign(v0.Entity, muxdrv.TxRegisterRuntime(ne+1, big, muxdrv.RuntimeDescriptor(rt2, v0.Entity.Public()))), "rt-register", "valid"},
+			txGen{muxdrv.Sign(v0.Entity, muxdrv.TxRegisterEntity(ne+2, big, v0.Entity, []signature.PublicKey{v0.Node.Public(), c.cnode.Node.Public()})), "rt-entity-nodes", "valid"})
+		c.rtStage = 1
+	case 1:
+		nd := muxdrv.NodeDescriptor(c.cnode, 1000, node.RoleComputeWorker)
+		nd.Runtimes = []*node.Runtime{{ID: rt1}, {ID: rt2}}
+		out = append(out, txGen{muxdrv.Sign(c.cnode.Node, muxdrv.TxRegisterNode(nonce(c.cnode.Node), muxdrv.Fee(1, 4*muxdrv.DefaultGas), c.cnode, nd)), "rt-register-node", "valid"})
+		c.rtStage = 2
+	default:
+		s1, s2 := ref.RuntimeState(0, rt1), ref.RuntimeState(0, rt2)
+		if s1 == nil || s2 == nil || s1.Committee == nil || s2.Committee == nil || s1.LastBlock == nil || s2.LastBlock == nil {
+			return nil
+		}
+		drop("acct", 1)
+		n1 := nonce(g.Accounts[1].Key)
+		// the submission order of the two commitments alternates; the finalization order must not depend on it
+		ids := []struct {
+			id common.Namespace
+			st *roothash.RuntimeState
+		}{{rt1, s1}, {rt2, s2}}
+		if c.rng.Chance(50) {
+			ids[0], ids[1] = ids[1], ids[0]
+		}
+		for k, x := range ids {
+			ec := muxdrv.ExecutorCommit(x.id, x.st.LastBlock, c.cnode.Node, 0)
+			out = append(out, txGen{muxdrv.Sign(g.Accounts[1].Key, muxdrv.TxExecutorCommit(n1+uint64(k), big, x.id, ec)), "rt-commit", "valid"})
+		}
+	}
+	return out
+}
+
 // ---------- one block ----------
 
 var pathNames = []string{"process", "replay", "stale-propose+process", "stale-propose+replay", "shadow-propose+process", "stale-same-header+process"}
@@ -630,6 +706,9 @@ func (c *c01Run) block(b int) *violation {
 		if t := c.newValidatorStep(prop); t != nil {
 			gens = append(gens, *t)
 		}
+	}
+	if c.rts {
+		gens = append(gens, c.runtimeStep(prop, &ss)...)
 	}
 	for i := 0; i < ntx && len(ss) > 0; i++ {
 		k := r.Intn(len(ss))
@@ -887,6 +966,15 @@ func (c *c01Run) block(b int) *violation {
 			c.sum.Count("tx_result", fmt.Sprintf("fail:%s/%d", t.Codespace, t.Code))
 		}
 	}
+	if c.rts {
+		okc := 0
+		for k, t := range ref.TxResults {
+			if k < len(desc.TxKinds) && strings.HasPrefix(desc.TxKinds[k], "rt-commit") && t.Code == 0 {
+				okc++
+			}
+		}
+		c.sum.Count("runtimes_to_finalize_entries", fmt.Sprint(okc))
+	}
 	if len(ref.ValidatorUpdates) > 0 {
 		c.sum.Count("validator_updates", fmt.Sprintf("%d", len(ref.ValidatorUpdates)))
 	} else {
@@ -1090,7 +1178,7 @@ func (c *c01Run) background(i int, stop chan struct{}, wg *sync.WaitGroup) {
 
 // ---------- entry point ----------
 
-func c01Main(seed uint64, out string, blocks, runs int, replay string, noBg bool, tieRuns, tieBlocks, procRuns int) {
+func c01Main(seed uint64, out string, blocks, runs int, replay string, noBg bool, tieRuns, tieBlocks, procRuns, rtRuns int) {
 	sum := coqout.NewSummary("one evaluation = one block executed by one replica and compared; distinct_nontrivial = number of distinct (history, height) blocks that carry at least one user transaction, evidence, a non-unanimous vote pattern or an epoch transition (each executed on 4 replicas/paths)")
 	w := coqout.NewWriter(out, c01Header, "run_case", "coutput_eqb", 60)
 	var cases []c01Case
@@ -1114,14 +1202,17 @@ func c01Main(seed uint64, out string, blocks, runs int, replay string, noBg bool
 		cases = append(cases, cs)
 	} else {
 		for i := 0; i < runs; i++ {
-			cases = append(cases, c01Case{Seed: seed*1000 + uint64(i), Blocks: blocks, NoBackground: noBg, Procs: i < procRuns})
+			cases = append(cases, c01Case{Seed: seed*1000 + uint64(i), Blocks: blocks, NoBackground: noBg, Procs: i < procRuns, Runtimes: i >= runs-rtRuns})
 		}
 		for i := 0; i < tieRuns; i++ {
 			cases = append(cases, c01Case{Seed: seed*1000 + 500 + uint64(i), Blocks: tieBlocks, NoBackground: noBg, Tie: true, Procs: i < procRuns})
 		}
 	}
 	for _, cs := range cases {
-		run := &c01Run{seed: cs.Seed, blocks: cs.Blocks, bg: !cs.NoBackground, tie: cs.Tie, procs: cs.Procs, sum: sum, w: w}
+		run := &c01Run{seed: cs.Seed, blocks: cs.Blocks, bg: !cs.NoBackground, tie: cs.Tie, procs: cs.Procs, rts: cs.Runtimes, sum: sum, w: w}
+		if cs.Runtimes {
+			sum.Count("history_variant", "with-two-runtimes")
+		}
 		if cs.Procs {
 			sum.Count("history_variant", "with-process-separated-twins")
 		}
